@@ -41,3 +41,68 @@ Fixpoint group_clauses (A : list N) (h : list N) (flags : list bool) : bool :=
   | [], [] => true
   | _, _ => false
   end.
+
+(** * Group sender table, observed from outside (monitor for [G] traces)
+
+    A trace is a list of [(sender key, counter, accepted?)].  Without looking
+    at the table: (1) a sender's counter accepted twice requires that the
+    sender was forgotten in between, i.e. at least 16 distinct other senders
+    were heard in between; (2) if all counters of a sender in the trace lie
+    within half the ring, a counter greater than everything accepted from
+    that sender so far must be accepted. *)
+
+Fixpoint distinct_keys (k : N) (l : list (N * N * bool)) (seen : list N) : nat :=
+  match l with
+  | [] => length seen
+  | (k', _, _) :: t =>
+      if (k' =? k) || existsb (N.eqb k') seen then distinct_keys k t seen
+      else distinct_keys k t (k' :: seen)
+  end.
+
+(** the part of [l] before the next accepted occurrence of [(k, c)], if any *)
+Fixpoint until_reaccept (k c : N) (l : list (N * N * bool)) (acc : list (N * N * bool))
+  : option (list (N * N * bool)) :=
+  match l with
+  | [] => None
+  | (k', c', f) :: t =>
+      if (k' =? k) && (c' =? c) && f then Some (rev acc)
+      else until_reaccept k c t ((k', c', f) :: acc)
+  end.
+
+Fixpoint g_never_twice (l : list (N * N * bool)) : bool :=
+  match l with
+  | [] => true
+  | (k, c, f) :: t =>
+      (if f then
+         match until_reaccept k c t [] with
+         | Some between => Nat.leb 16 (distinct_keys k between [])
+         | None => true
+         end
+       else true) && g_never_twice t
+  end.
+
+Definition key_band_ok (k : N) (l : list (N * N * bool)) : bool :=
+  let vs := map (fun x => snd (fst x)) (filter (fun x => fst (fst x) =? k) l) in
+  match vs with
+  | [] => true
+  | v :: _ =>
+      let mx := fold_left N.max vs v in
+      let mn := fold_left N.min vs v in
+      mx - mn <? two31
+  end.
+
+(** [prev] = reversed prefix already processed *)
+Fixpoint g_newer_accepted_from (all : list (N * N * bool)) (prev l : list (N * N * bool)) : bool :=
+  match l with
+  | [] => true
+  | (k, c, f) :: t =>
+      (if f then true
+       else if key_band_ok k all then
+         (* rejected: some earlier accepted counter of this sender must be >= c *)
+         existsb (fun x => (fst (fst x) =? k) && snd x && (c <=? snd (fst x))) prev
+       else true)
+      && g_newer_accepted_from all ((k, c, f) :: prev) t
+  end.
+
+Definition g_monitor (l : list (N * N * bool)) : bool :=
+  g_never_twice l && g_newer_accepted_from l [] l.
